@@ -9,3 +9,80 @@ package base
 //@   ensures[C12] err == nil ==> ret != nil && fresh(ret)
 //@   ensures[C12] err != nil ==> ret == nil
 //@   modifies fresh
+
+// --- C04: limits and totality of the readers -------------------------------------------
+// The reader's own state and the bytes it hands out are outside the contracts: reads are
+// modelled as writing every bufio.Reader and every byte array (see /verif/specs/lib.spec).
+
+//@ func readByteEqual
+//@   opt safety-tag=C04
+//@   modifies all(bufio.Reader), all(byte), fresh
+
+// At most n bytes are consumed; the delimiter is the last byte returned.
+//@ func readBytesLimited
+//@   opt safety-tag=C04
+//@   ensures[C04] err == nil ==> 1 <= len(ret) && len(ret) <= n
+//@   ensures[C04] err != nil ==> ret == nil
+//@   modifies all(bufio.Reader), all(byte), fresh
+//@   loop 1
+//@     invariant 1 <= i
+
+//@ func readBytesLimitedUntilSpaceOrCarriage
+//@   opt safety-tag=C04
+//@   ensures[C04] err == nil ==> 1 <= len(ret) && len(ret) <= n
+//@   ensures[C04] err != nil ==> ret == nil
+//@   modifies all(bufio.Reader), all(byte), fresh
+//@   loop 1
+//@     invariant 1 <= i
+
+// No more than 255 entries; a key has at most 512 bytes and a value at most 2048 when it is
+// stored (the limits documented in header.go).
+//@ func (h *Header) unmarshal
+//@   opt safety-tag=C04
+//@   assert[C04]@mapupdate count < 255 && len(key) <= 512 && len(val) <= 2048
+//@   modifies *h, all(bufio.Reader), all(byte), all(string), fresh
+//@   loop 1
+//@     invariant 0 <= count && count <= 255
+
+// The body buffer is allocated only after the declared length passed the 128 KiB limit.
+//@ func (b *body) unmarshal
+//@   opt safety-tag=C04
+//@   ensures[C04] err == nil ==> len(*b) <= 131072
+//@   assert[C04]@call:ReadFull len(*b) <= 131072
+//@   modifies *b, all(bufio.Reader), all(byte), fresh
+
+// Channel 0..255, payload 0..65535 in a new buffer (a callback may keep it).
+//@ func (f *InterleavedFrame) Unmarshal
+//@   opt safety-tag=C04
+//@   ensures[C04] err == nil ==> 0 <= f.Channel && f.Channel <= 255 && len(f.Payload) <= 65535
+//@   modifies fields(f), all(bufio.Reader), all(byte), fresh
+
+//@ func (req *Request) Unmarshal
+//@   opt safety-tag=C04
+//@   ensures[C04] err == nil ==> 1 <= len(string(req.Method)) && len(string(req.Method)) <= 63 && len(req.Body) <= 131072
+//@   modifies fields(req), all(bufio.Reader), all(byte), all(string), fresh
+
+//@ func (res *Response) Unmarshal
+//@   opt safety-tag=C04
+//@   ensures[C04] err == nil ==> len(res.StatusMessage) <= 254 && len(res.Body) <= 131072
+//@   modifies fields(res), all(bufio.Reader), all(byte), all(string), fresh
+
+// Writing a frame needs 4+len(Payload) bytes and uses exactly that many.
+//@ func (f InterleavedFrame) MarshalTo
+//@   opt safety-tag=C04
+//@   requires len(buf) >= 4 + len(f.Payload)
+//@   ensures[C04] err == nil && ret == 4 + len(f.Payload)
+//@   ensures[C04] buf[0] == 36 && buf[1] == uint8(f.Channel)
+//@   ensures[C04] len(f.Payload) <= 65535 ==> int(buf[2])*256 + int(buf[3]) == len(f.Payload)
+//@   ensures[C04] ref(buf) != ref(f.Payload) ==> (forall i :: 0 <= i && i < len(f.Payload) ==> buf[4+i] == f.Payload[i])
+//@   modifies elems(buf), fresh
+
+//@ func (f InterleavedFrame) MarshalSize
+//@   ensures[C04] ret == 4 + len(f.Payload)
+//@   modifies nothing
+
+//@ func (f InterleavedFrame) Marshal
+//@   opt safety-tag=C04
+//@   requires len(f.Payload) <= 65535
+//@   ensures[C04] err == nil && len(ret) == 4 + len(f.Payload)
+//@   modifies fresh
